@@ -31,12 +31,13 @@ import (
 )
 
 type Input struct {
-	Svc       string   `json:"svc"` // ssh | ldap | ftp
+	Svc       string   `json:"svc"` // ssh | ldap | ftp | ldap-multi | ftp-multi
 	Creds     []string `json:"creds,omitempty"`
 	HaveCreds bool     `json:"have_creds"` // false: no credentials key (the service's default)
 	Conns     []SConn  `json:"conns,omitempty"`
 	Reqs      []LReq   `json:"reqs,omitempty"`
 	Lines     []string `json:"lines,omitempty"`
+	Sched     []MStep  `json:"sched,omitempty"`   // ldap-multi | ftp-multi: (connection, request) in execution order
 	Burst     bool     `json:"burst,omitempty"`   // ftp: all lines in one segment
 	SlowUs    int      `json:"slow_us,omitempty"` // ftp: the recording channel sleeps this long per event
 }
@@ -479,7 +480,7 @@ func effCreds(in Input) []string {
 	switch in.Svc {
 	case "ssh":
 		return []string{"*"} // ssh-simulator.go: Credentials: []string{"*"}
-	case "ldap":
+	case "ldap", "ldap-multi":
 		return []string{"root:root"} // ldap.go: Credentials: []string{"root:root"}
 	}
 	return nil
@@ -573,6 +574,18 @@ func runCase(id int, in Input) hx.Case {
 		ob, crash := runFTP(lines, in.Burst, time.Duration(in.SlowUs)*time.Microsecond)
 		c.Obs, c.Crash = ob, crash
 		c.Coq = coqFTP(id, in, ob)
+	case "ldap-multi":
+		ob, crash := runLDAPMulti(in.Creds, in.HaveCreds, in.Sched)
+		c.Obs, c.Crash = ob, crash
+		if crash == "" {
+			c.Coq = coqLDAPMulti(id, in, ob)
+		}
+	case "ftp-multi":
+		ob, crash := runFTPMulti(in.Sched)
+		c.Obs, c.Crash = ob, crash
+		if crash == "" {
+			c.Coq = coqFTPMulti(id, in, ob)
+		}
 	default:
 		hx.Fatal("unknown service %q", in.Svc)
 	}
@@ -635,6 +648,14 @@ func main() {
 				}
 			}
 		}
+		if len(in.Sched) > 0 {
+			cs := map[int]bool{}
+			for _, st := range in.Sched {
+				cs[st.Conn] = true
+			}
+			dist[fmt.Sprintf("%s-conns:%d", in.Svc, len(cs))]++
+			dist[in.Svc+"-steps"] += len(in.Sched)
+		}
 		if c.Crash != "" {
 			dist["crash"]++
 		}
@@ -661,12 +682,18 @@ func main() {
 	for _, in := range ftpBurstCorpus() {
 		add(in)
 	}
-	nS, nL, nF, nB := 220, 330, 300, 12
+	for _, in := range ldapMultiCorpus() {
+		add(in)
+	}
+	for _, in := range ftpMultiCorpus() {
+		add(in)
+	}
+	nS, nL, nF, nB, nM := 200, 300, 270, 12, 60
 	switch o.Tier {
 	case "thorough":
-		nS, nL, nF, nB = 2000, 3500, 3000, 100
+		nS, nL, nF, nB, nM = 2000, 3500, 3000, 100, 600
 	case "search":
-		nS, nL, nF, nB = 600, 1200, 1000, 40
+		nS, nL, nF, nB, nM = 600, 1200, 1000, 40, 200
 	}
 	for i := 0; i < nS; i++ {
 		add(genSSH(r))
@@ -679,6 +706,10 @@ func main() {
 	}
 	for i := 0; i < nB; i++ {
 		add(genFTPBurst(r))
+	}
+	for i := 0; i < nM; i++ {
+		add(genLDAPMulti(r))
+		add(genFTPMulti(r))
 	}
 	hx.Write(o, "C12", "auth", header, "case", cases, dist, map[string]interface{}{"ftp_root": ftpRoot()}, 400)
 }
